@@ -437,7 +437,11 @@ func c15HelloMachine(r *verdict.Run, walks int) {
 		cns[0].Do("SADD", "ps", "a", "b")
 		cns[0].Do("MSET", "pa", "ohmytext", "pb", "mynewtext")
 		var log []string
-		variants := [][]string{{"HELLO"}, {"HELLO", "2"}, {"HELLO", "3"}, {"HELLO", "1"}, {"HELLO", "4"}, {"HELLO", "0"}, {"HELLO", "x"}, {"HELLO", "3", "SETNAME", "nm"}, {"HELLO", "2", "SETNAME", "n2"}, {"HELLO", "-1"}, {"HELLO", "33"}}
+		variants := [][]string{{"HELLO"}, {"HELLO", "2"}, {"HELLO", "3"}, {"HELLO", "1"}, {"HELLO", "4"}, {"HELLO", "0"}, {"HELLO", "x"}, {"HELLO", "3", "SETNAME", "nm"}, {"HELLO", "2", "SETNAME", "n2"}, {"HELLO", "-1"}, {"HELLO", "33"},
+			// a supported version with an option that may be refused (invalid client name, unknown user, trailing junk): whatever
+			// the emulator decides, a refused HELLO must change nothing and an accepted one must apply completely
+			{"HELLO", "3", "SETNAME", "bad name"}, {"HELLO", "2", "SETNAME", "bad\tname"}, {"HELLO", "3", "SETNAME", "new\nline"}, {"HELLO", "2", "SETNAME", " lead"},
+			{"HELLO", "3", "AUTH", "nouser", "nopass"}, {"HELLO", "2", "AUTH", "nouser", "nopass", "SETNAME", "x1"}, {"HELLO", "3", "SETNAME"}, {"HELLO", "2", "BOGUS"}, {"HELLO", "3", "SETNAME", "x2", "junk"}}
 		for step := 0; step < 60; step++ {
 			i := rng.Intn(3)
 			rep := func() map[string]any { return map[string]any{"script": log} }
@@ -501,13 +505,20 @@ func c15HelloMachine(r *verdict.Run, walks int) {
 				if valid && len(v) > 1 {
 					want, _ = strconv.Atoi(v[1])
 				}
-				if valid {
+				// plain forms must be accepted; forms with a questionable option may be refused (then nothing changes: the
+				// probes below check protocol and name against the unchanged expectation)
+				mayRefuse := len(v) > 2 && !(len(v) == 4 && (v[3] == "nm" || v[3] == "n2"))
+				if valid && mayRefuse && val.IsError() {
+					r.Distinct(fmt.Sprintf("hello-refused/%s/from%d", strings.Join(v[1:], " "), proto[i]))
+				} else if valid {
 					if val.IsError() {
 						r.Report("c15/hello/valid-refused", fmt.Sprintf("%s was refused: %s", cmdString(v), val), rep())
 					} else {
 						proto[i] = want
-						if len(v) == 4 {
-							names[i] = v[3]
+						for k := 2; k+1 < len(v); k++ {
+							if strings.EqualFold(v[k], "SETNAME") {
+								names[i] = v[k+1]
+							}
 						}
 						first := byte('*')
 						if want == 3 {
